@@ -27,7 +27,10 @@ def rd(ctx, N, M=16, B=4, K=1, qN=None, tiers=("quick", "thorough"), labels=None
     r["params"]["LITCAP"] = 0
     r["params"]["ONLY"] = 2 if labels and "C02:" in labels else 0
     r["params"]["HL"] = 0
+    r["params"]["REUSE"] = 0
     r["params"]["BLO"] = 0
+    r["params"]["BCOUNT"] = 1
+    r["params"]["BSTEP"] = 8
     r["params"]["CONC"] = 0
     r["params"]["BHI"] = 0
     r["params"]["HD"] = 0
@@ -65,7 +68,8 @@ CHECKS = {
     },
     "C03": {
         "level": "model_checking",
-        "runs": [rd(c, n, labels=["C03:"], covers=["truncated"] if c not in (8, 25, 26, 60) else []) for c, n in RD_CONTEXTS_Q] +
+        "runs": [rd(c, n, labels=["C03:"], covers=["truncated"] if c not in (8, 25, 26, 60) else [], tiers=["thorough"] if c in (7, 8) else ["quick", "thorough"]) for c, n in RD_CONTEXTS_Q] +
+                [rd(c, 6, labels=["C03:"], tiers=["quick"]) for c in (7, 8)] +
                 [rd(6, 2, K=k, labels=["C03:"]) for k in (0, 2, 3)] +
                 [rd(27, 3, M=300, labels=["C03:"], extra={"LITCAP": 2})] +
                 [rd(47, 5, M=300, labels=["C03:"], extra={"LITCAP": 1})] +
@@ -284,8 +288,11 @@ CHECKS["C01"]["assumptions"].append("VerifWrLookahead: the state idx == end with
 # 30-50 s per run and sometimes 'unknown', so those runs case-split the window byte (CONC=1); two-byte
 # windows were tried and dropped (solver unknowns).
 HDR91 = [(1, k, hl, hd) for (hl, hd) in [(0, 0), (1, 1), (29, 0), (0, 29), (10, 5)] for k in (1, 2, 3, 4, 5, 6)]
-CHECKS["C03"]["runs"] += [rd(91, n, K=k, labels=["C03:"], extra={"HL": hl, "HD": hd, "CONC": 1 if k == 3 else 0}) for (n, k, hl, hd) in HDR91]
-CHECKS["C02"]["runs"] += [rd(91, n, K=k, labels=["C02:", "REF:"], extra={"HL": hl, "HD": hd, "CONC": 1 if k == 3 else 0}) for (n, k, hl, hd) in HDR91 if k in (1, 3, 5)]
+# quick: the window byte is case-split (CONC=1, ~1.5 s per run); the genuinely symbolic variant (30-70 s for
+# several alignments: slow queries over table construction) runs in the thorough tier
+CHECKS["C03"]["runs"] += [rd(91, n, K=k, labels=["C03:"], extra={"HL": hl, "HD": hd, "CONC": 1}) for (n, k, hl, hd) in HDR91]
+CHECKS["C03"]["runs"] += [rd(91, n, K=k, labels=["C03:"], tiers=["thorough"], extra={"HL": hl, "HD": hd, "CONC": 0}) for (n, k, hl, hd) in HDR91 if k != 3]
+CHECKS["C02"]["runs"] += [rd(91, n, K=k, labels=["C02:", "REF:"], extra={"HL": hl, "HD": hd, "CONC": 1}) for (n, k, hl, hd) in HDR91 if k in (1, 3, 5)]
 
 # context 92: bits [BLO, BHI) of a complete template header are symbolic.
 def hdr92(K, lo, hi, conc, labels, tiers=("quick", "thorough")):
@@ -294,14 +301,21 @@ def hdr92(K, lo, hi, conc, labels, tiers=("quick", "thorough")):
     r["maxdec"] = 4000
     return r
 
+def hdr92sweep(K, lo0, count, step, labels, tiers=("quick", "thorough")):
+    # one run, `count` sliding 8-bit windows starting at lo0, `step` bits apart (N=2: a window spans at most two bytes)
+    r = rd(92, 2, K=K, labels=labels, tiers=tiers, extra={"BLO": lo0, "BHI": lo0 + 8, "CONC": 1, "BCOUNT": count, "BSTEP": step})
+    r["maxdec"] = 4000
+    r["maxconc"] = 600
+    return r
+
 HDR92_LEN = {2: 145, 14: 153, 8: 345, 12: 200}
 for _lab, _pid in ((["C03:"], "C03"), (["C02:", "REF:"], "C02")):
     # HLIT, HDIST, HCLEN fields: symbolic
     CHECKS[_pid]["runs"] += [hdr92(K, lo, hi, 0, _lab) for K in (2, 14) for (lo, hi) in [(3, 8), (8, 13), (13, 17)]]
     # code-length code lengths and code-length symbols: sliding 8-bit windows, case-split
-    CHECKS[_pid]["runs"] += [hdr92(K, lo, lo + 8, 1, _lab) for K in (2, 14) for lo in range(17, HDR92_LEN[K], 8)]
-    CHECKS[_pid]["runs"] += [hdr92(K, lo, lo + 8, 1, _lab, tiers=["thorough"]) for K in (2, 14) for lo in range(21, HDR92_LEN[K], 8)]
-    CHECKS[_pid]["runs"] += [hdr92(K, lo, lo + 8, 1, _lab, tiers=["thorough"]) for K in (8, 12) for lo in range(17, HDR92_LEN[K], 4)]
+    CHECKS[_pid]["runs"] += [hdr92sweep(K, 17, (HDR92_LEN[K] - 17 + 7) // 8, 8, _lab) for K in (2, 14)]
+    CHECKS[_pid]["runs"] += [hdr92sweep(K, 21, (HDR92_LEN[K] - 21 + 7) // 8, 8, _lab, tiers=["thorough"]) for K in (2, 14)]
+    CHECKS[_pid]["runs"] += [hdr92sweep(K, 17, (HDR92_LEN[K] - 17 + 3) // 4, 4, _lab, tiers=["thorough"]) for K in (8, 12)]
 # assembly match-copy strategies: byte-aligned two-byte window after non-repeating output (context 6)
 CHECKS["C18"]["runs"] += [dict(rd(6, 2, M=36, labels=["C18:"], covers=["ran"], harness="VerifAsmDiff", tiers=["quick"], extra={"LITCAP": 1}), tags="verif", native_configs=[["verif", None]], maxdec=4000)]
 CHECKS["C18"]["runs"] += [dict(rd(6, 2, M=260, labels=["C18:"], covers=["ran"], harness="VerifAsmDiff", tiers=["thorough"]), tags="verif", native_configs=[["verif", None]], maxdec=4000, maxconc=600)]
@@ -326,3 +340,14 @@ CHECKS["C02"]["runs"] += [rd(93, n, K=k, labels=["C02:", "REF:"]) for (n, k) in 
 CHECKS["C04"]["runs"] += [rdp("VerifRdChunk", 93, n, {"chunk": ch, "bufio": b}, ["C04:"], ["ran"], extra={"K": k}) for (n, k, ch, b) in [(4, 2, 0, 0), (6, 3, 3, 1)]]
 CHECKS["C05"]["runs"] += [rdp("VerifRdPos", 93, 4, {"src": k, "ctor": ct}, ["C05:"], ["eof"], extra={"K": 2}) for (k, ct) in [(0, 1), (2, 0)]]
 CHECKS["C11"]["runs"] += [rdp("VerifRdGate", 93, 4, {"bufio": b}, ["C11:"], [], extra={"K": 2}) for b in (0, 2)]
+
+# findings of the native defect hunt (A.5): long distance codes in an incomplete code (template 5 windows),
+# the window filling with the rest of the stream in the bit buffer (gate on context 90), Reset on a Reader
+# that holds the caller's bufio.Reader
+for _lab, _pid in ((["C03:"], "C03"), (["C02:", "REF:"], "C02")):
+    CHECKS[_pid]["runs"] += [hdr92sweep(5, 89, 15, 8, _lab)]
+    CHECKS[_pid]["runs"] += [hdr92sweep(5, 93, 14, 8, _lab, tiers=["thorough"])]
+    CHECKS[_pid]["runs"] += [hdr92sweep(K, 17, 31, 8, _lab, tiers=["thorough"]) for K in (3, 17)]
+CHECKS["C11"]["runs"] += [rdp("VerifRdGate", 90, n, {"bufio": b}, ["C11:"], [], extra={"K": k}) for (n, k) in [(1, 0), (1, 2), (2, 1)] for b in (0, 2)]
+CHECKS["C05"]["runs"] += [rdp("VerifRdPos", c, n, {"src": k, "ctor": ct}, ["C05:", "C13:"], ["eof"], extra={"REUSE": 1}) for (c, n) in [(0, 2), (1, 2)] for (k, ct) in [(0, 1), (2, 0), (3, 1)]]
+CHECKS["C13"]["runs"] += [rdp("VerifRdPos", 0, 2, {"src": k, "ctor": ct}, ["C05:", "C13:"], ["eof"], extra={"REUSE": 1}) for (k, ct) in [(1, 0), (2, 1)]]
